@@ -335,6 +335,11 @@ def load_known():
             if f.endswith(".json"):
                 for e in json.load(open(os.path.join(dd, f))).get("findings", []):
                     out.setdefault(e["property"], []).append(e)
+    # VERIF_IGNORE_KNOWN=key1,key2: treat these finding keys as NOT listed (a listed defect that was repaired must be a
+    # VIOLATION again on an unrepaired tree; used to test exactly that before the entry is moved to "fixed")
+    ignore = set(k.strip() for k in os.environ.get("VERIF_IGNORE_KNOWN", "").split(",") if k.strip())
+    if ignore:
+        out = {prop: [e for e in lst if e.get("key") not in ignore] for prop, lst in out.items()}
     return out
 
 
